@@ -261,7 +261,7 @@ fn one_run_inner(ctx: &RunCtx) -> RunOut {
                     };
                     let (mut s, mut r) = match conn.accept_bi().await {
                         Ok(x) => x,
-                        Err(e) => return rec.borrow_mut().errors.push(format!("peer accept_bi: {e}")),
+                        Err(e) => return rec.borrow_mut().errors.push(format!("peer accept_bi: {e} ({e:?})")),
                     };
                     if mode == 1 {
                         // injected condition at a drawn point of the transfer
@@ -301,7 +301,7 @@ fn one_run_inner(ctx: &RunCtx) -> RunOut {
                     let reader = async move {
                         match r.read_to_end(4_000_000).await {
                             Ok(v) => rec_a.borrow_mut().peer_read = Some(v),
-                            Err(e) => rec_a.borrow_mut().errors.push(format!("peer read_to_end: {e}")),
+                            Err(e) => rec_a.borrow_mut().errors.push(format!("peer read_to_end: {e} ({e:?})")),
                         }
                     };
                     let rec_b = rec.clone();
@@ -310,7 +310,7 @@ fn one_run_inner(ctx: &RunCtx) -> RunOut {
                         while off < peer_bytes.len() {
                             let k = (peer_bytes.len() - off).min(1 + draw_usize(5000));
                             if let Err(e) = s.write_all(&peer_bytes[off..off + k]).await {
-                                rec_b.borrow_mut().errors.push(format!("peer write: {e}"));
+                                rec_b.borrow_mut().errors.push(format!("peer write: {e} ({e:?})"));
                                 return;
                             }
                             off += k;
@@ -542,7 +542,7 @@ fn one_run_inner(ctx: &RunCtx) -> RunOut {
     // Under injected packet loss QUIC's own loss recovery can legitimately run into the idle timeout (PTO
     // back-off built up during a lossy handshake, probes lost again): the connection then ends with Timeout
     // whatever the adapter does. Such a run is inconclusive, not a violation; loss-free runs keep the rule.
-    if lossy && !(mode == 1 && fault_kind == 3) && (r.errors.iter().any(|e| e.contains("Timeout")) || r.outcome.iter().any(|(_, o)| o.contains("Timeout"))) {
+    if lossy && !(mode == 1 && fault_kind == 3) && (r.errors.iter().any(|e| e.contains("Timeout") || e.contains("TimedOut")) || r.outcome.iter().any(|(_, o)| o.contains("Timeout"))) {
         obs::count("probe.run_ended_by_idle_timeout_under_packet_loss");
         return RunOut::ok(false);
     }
@@ -636,7 +636,7 @@ fn finish_full_stack(ctx: &RunCtx, stop: Stop, rec: &Rc<RefCell<Rec>>, req_body:
         return v;
     }
     let r = rec.borrow();
-    if lossy && r.errors.iter().any(|e| e.contains("Timeout")) {
+    if lossy && r.errors.iter().any(|e| e.contains("Timeout") || e.contains("TimedOut")) {
         obs::count("probe.run_ended_by_idle_timeout_under_packet_loss");
         return RunOut::ok(false);
     }
